@@ -82,6 +82,9 @@ func resetFile(pkgDir, pkgName, funcName string) string {
 					if isSyncMap(vs.Type) {
 						kind = "value"
 					}
+					if isSyncSel(vs.Type, "Once") {
+						kind = "once"
+					}
 					if i < len(vs.Values) {
 						switch v := vs.Values[i].(type) {
 						case *ast.CallExpr: // new(sync.Map)
@@ -109,7 +112,9 @@ func resetFile(pkgDir, pkgName, funcName string) string {
 	var b strings.Builder
 	fmt.Fprintf(&b, "package %s\n\nimport (\n\t\"sync\"\n\n\t\"kmipverif/simrt\"\n)\n\nvar _ sync.Locker\n\nvar verifVarSnap simrt.VarSnap\n\n// %s empties the lazily built process-wide caches of this package and puts every package-level map back to what it held\n// when the function was first called (after all init functions). Added by the verification overlay only.\nfunc %s() {\n", pkgName, funcName, funcName)
 	for i, n := range names {
-		if kinds[i] == "ptr" {
+		if kinds[i] == "once" {
+			fmt.Fprintf(&b, "\t%s = sync.Once{}\n", n)
+		} else if kinds[i] == "ptr" {
 			fmt.Fprintf(&b, "\t%s = new(sync.Map)\n", n)
 		} else {
 			fmt.Fprintf(&b, "\t%s.Clear()\n", n)
@@ -123,13 +128,15 @@ func resetFile(pkgDir, pkgName, funcName string) string {
 	return b.String()
 }
 
-func isSyncMap(e ast.Expr) bool {
+func isSyncMap(e ast.Expr) bool { return isSyncSel(e, "Map") }
+
+func isSyncSel(e ast.Expr, name string) bool {
 	se, ok := e.(*ast.SelectorExpr)
 	if !ok {
 		return false
 	}
 	id, ok := se.X.(*ast.Ident)
-	return ok && id.Name == "sync" && se.Sel.Name == "Map"
+	return ok && id.Name == "sync" && se.Sel.Name == name
 }
 
 func fail(a ...any) {
@@ -273,6 +280,7 @@ type rw struct {
 	sched      bool   // rewrite go / select / channel operations / locks / waits / sleeps
 	light      bool   // no per-statement yields (files outside the connection code)
 	chanIdents map[string]bool
+	imports    map[string]bool // local names of the imported packages
 }
 
 func (r *rw) site(pos token.Pos) string {
@@ -297,6 +305,17 @@ func rewriteFile(path, rel string, raw []byte, mode string) ([]byte, error) {
 	file.Comments = keep
 	file.Doc = nil
 	r := &rw{fset: fset, rel: rel, yield: "simrt.Yield", sched: mode != "pool", light: mode == "light"}
+	r.imports = map[string]bool{}
+	for _, imp := range file.Imports {
+		name := strings.Trim(imp.Path.Value, `"`)
+		if i := strings.LastIndexByte(name, '/'); i >= 0 {
+			name = name[i+1:]
+		}
+		if imp.Name != nil {
+			name = imp.Name.Name
+		}
+		r.imports[name] = true
+	}
 	if mode == "codec" {
 		r.yield = "simrt.YieldCodec"
 	}
@@ -338,6 +357,21 @@ func rewriteFile(path, rel string, raw []byte, mode string) ([]byte, error) {
 	})
 	if hadDialer && !usesTLS {
 		file.Decls = append(file.Decls, parseDecl(`var _ tls.Config`))
+	}
+	// net.TCPConn -> simrt.TCPConn: code that digs for the TCP connection under a net.Conn (to set socket options)
+	// finds the simulated one
+	hadTCP := false
+	ast.Inspect(file, func(n ast.Node) bool {
+		if se, ok := n.(*ast.SelectorExpr); ok {
+			if id, ok := se.X.(*ast.Ident); ok && id.Name == "net" && se.Sel.Name == "TCPConn" {
+				id.Name = "simrt"
+				hadTCP = true
+			}
+		}
+		return true
+	})
+	if hadTCP {
+		file.Decls = append(file.Decls, parseDecl(`var _ net.Conn`))
 	}
 	for _, d := range file.Decls {
 		if mode == "pool" {
@@ -474,6 +508,14 @@ func (r *rw) rewriteStmt(s ast.Stmt) []ast.Stmt {
 				}
 			}
 		}
+		if call, ok := x.X.(*ast.CallExpr); ok && len(call.Args) == 1 && !call.Ellipsis.IsValid() {
+			// x.Do(f): a sync.Once (decided at run time; anything else named Do is called as written)
+			if sel, ok := call.Fun.(*ast.SelectorExpr); ok && sel.Sel.Name == "Do" {
+				if _, isCall := sel.X.(*ast.CallExpr); !isCall && !r.isPackageIdent(sel.X) {
+					return r.stmts(fmt.Sprintf(`simrt.OnceDo(&%s, %s)`, r.node(sel.X), r.node(call.Args[0])))
+				}
+			}
+		}
 		if call, ok := x.X.(*ast.CallExpr); ok && len(call.Args) == 0 {
 			if sel, ok := call.Fun.(*ast.SelectorExpr); ok {
 				switch sel.Sel.Name {
@@ -497,6 +539,12 @@ func (r *rw) rewriteStmt(s ast.Stmt) []ast.Stmt {
 		}
 	}
 	return []ast.Stmt{s}
+}
+
+// isPackageIdent: a bare identifier that names an imported package (pkg.Do(x) is a function call, not a method).
+func (r *rw) isPackageIdent(e ast.Expr) bool {
+	id, ok := e.(*ast.Ident)
+	return ok && id.Obj == nil && r.imports[id.Name]
 }
 
 func (r *rw) bracket(s ast.Stmt, pos token.Pos) []ast.Stmt {
